@@ -121,12 +121,12 @@ package kv
 //@   loop 0 invariant forall i Int :: 0 <= i && i <= rangeindex ==> entries[i].Result.Value == 1 || entries[i].Result.Value == 2
 //@   loop 0 invariant rangeindex + 1 < len(entries) ==> forall k string :: has(fsm.store.m, k) ==> fsm.store.m[k].Ver < entries[rangeindex+1].Index
 //@   loop 0 invariant rangeindex >= 0 && rangeindex + 1 >= len(entries) ==> forall k string :: has(fsm.store.m, k) ==> fsm.store.m[k].Ver <= entries[rangeindex].Index
-//@   loop 0 step [C13.cas.reject] prev(rejected(fsm.store, entries[rangeindex+1].Cmd)) ==> entries[rangeindex+1].Result.Value == 2 && pairOf(entries[rangeindex+1].Result.Data) == prev(fsm.store.m[updOf(entries[rangeindex+1].Cmd).KVPair.Key]) && forall k string :: has(fsm.store.m, k) == prev(has(fsm.store.m, k)) && fsm.store.m[k] == prev(fsm.store.m[k])
-//@   loop 0 step [C13.cas.set] !prev(rejected(fsm.store, entries[rangeindex+1].Cmd)) && updOf(entries[rangeindex+1].Cmd).Op == "set" ==> entries[rangeindex+1].Result.Value == 1 && has(fsm.store.m, updOf(entries[rangeindex+1].Cmd).KVPair.Key) && fsm.store.m[updOf(entries[rangeindex+1].Cmd).KVPair.Key] == Pair{Key: updOf(entries[rangeindex+1].Cmd).KVPair.Key, Value: updOf(entries[rangeindex+1].Cmd).KVPair.Value, Ver: entries[rangeindex+1].Index} && pairOf(entries[rangeindex+1].Result.Data) == fsm.store.m[updOf(entries[rangeindex+1].Cmd).KVPair.Key]
-//@   loop 0 step [C13.cas.delete] !prev(rejected(fsm.store, entries[rangeindex+1].Cmd)) && updOf(entries[rangeindex+1].Cmd).Op == "delete" ==> entries[rangeindex+1].Result.Value == 1 && !has(fsm.store.m, updOf(entries[rangeindex+1].Cmd).KVPair.Key)
-//@   loop 0 step [C13.cas.frame] forall k string :: k != updOf(entries[rangeindex+1].Cmd).KVPair.Key ==> has(fsm.store.m, k) == prev(has(fsm.store.m, k)) && fsm.store.m[k] == prev(fsm.store.m[k])
+//@   loop 0 step [C13.cas.reject+C14+C15] prev(rejected(fsm.store, entries[rangeindex+1].Cmd)) ==> entries[rangeindex+1].Result.Value == 2 && pairOf(entries[rangeindex+1].Result.Data) == prev(fsm.store.m[updOf(entries[rangeindex+1].Cmd).KVPair.Key]) && forall k string :: has(fsm.store.m, k) == prev(has(fsm.store.m, k)) && fsm.store.m[k] == prev(fsm.store.m[k])
+//@   loop 0 step [C13.cas.set+C14+C15] !prev(rejected(fsm.store, entries[rangeindex+1].Cmd)) && updOf(entries[rangeindex+1].Cmd).Op == "set" ==> entries[rangeindex+1].Result.Value == 1 && has(fsm.store.m, updOf(entries[rangeindex+1].Cmd).KVPair.Key) && fsm.store.m[updOf(entries[rangeindex+1].Cmd).KVPair.Key] == Pair{Key: updOf(entries[rangeindex+1].Cmd).KVPair.Key, Value: updOf(entries[rangeindex+1].Cmd).KVPair.Value, Ver: entries[rangeindex+1].Index} && pairOf(entries[rangeindex+1].Result.Data) == fsm.store.m[updOf(entries[rangeindex+1].Cmd).KVPair.Key]
+//@   loop 0 step [C13.cas.delete+C14+C15] !prev(rejected(fsm.store, entries[rangeindex+1].Cmd)) && updOf(entries[rangeindex+1].Cmd).Op == "delete" ==> entries[rangeindex+1].Result.Value == 1 && !has(fsm.store.m, updOf(entries[rangeindex+1].Cmd).KVPair.Key)
+//@   loop 0 step [C13.cas.frame+C14+C15] forall k string :: k != updOf(entries[rangeindex+1].Cmd).KVPair.Key ==> has(fsm.store.m, k) == prev(has(fsm.store.m, k)) && fsm.store.m[k] == prev(fsm.store.m[k])
 //@   loop 0 step [C13.cas.noop] !prev(rejected(fsm.store, entries[rangeindex+1].Cmd)) && updOf(entries[rangeindex+1].Cmd).Op != "set" && updOf(entries[rangeindex+1].Cmd).Op != "delete" ==> forall k string :: has(fsm.store.m, k) == prev(has(fsm.store.m, k)) && fsm.store.m[k] == prev(fsm.store.m[k])
-//@   loop 0 step [C13.version.fresh] !prev(rejected(fsm.store, entries[rangeindex+1].Cmd)) && updOf(entries[rangeindex+1].Cmd).Op == "set" ==> forall k string :: prev(has(fsm.store.m, k)) ==> fsm.store.m[updOf(entries[rangeindex+1].Cmd).KVPair.Key].Ver > prev(fsm.store.m[k].Ver)
+//@   loop 0 step [C13.version.fresh+C14+C15] !prev(rejected(fsm.store, entries[rangeindex+1].Cmd)) && updOf(entries[rangeindex+1].Cmd).Op == "set" ==> forall k string :: prev(has(fsm.store.m, k)) ==> fsm.store.m[updOf(entries[rangeindex+1].Cmd).KVPair.Key].Ver > prev(fsm.store.m[k].Ver)
 
 // glob and directory listings: read-only on the store (their result sets are not under contract:
 // path.Match / path.Clean / strings.Split and the sorts are outside the engine's subset)
@@ -229,10 +229,10 @@ package kv
 //@   params r, key, value, ver
 //@   results p, err
 //@   requires r != nil && r.NodeHost != nil
-//@   ensures [C13.client.set] updOf(r.NodeHost.lastCmd) == Update{Op: "set", KVPair: Pair{Key: key, Value: value, Ver: ver}}
-//@   ensures [C13.client.set] r.NodeHost.lastErr == nil && r.NodeHost.lastRes.Value == 2 ==> err != nil && (err == ErrVersionMismatch ==> p == pairOf(r.NodeHost.lastRes.Data))
-//@   ensures [C13.client.set] err == nil ==> r.NodeHost.lastErr == nil && r.NodeHost.lastRes.Value != 2 && p == pairOf(r.NodeHost.lastRes.Data)
-//@   ensures [C13.client.set] err == ErrVersionMismatch ==> r.NodeHost.lastErr != nil || r.NodeHost.lastRes.Value == 2
+//@   ensures [C13.client.set+C14+C15] updOf(r.NodeHost.lastCmd) == Update{Op: "set", KVPair: Pair{Key: key, Value: value, Ver: ver}}
+//@   ensures [C13.client.set+C14+C15] r.NodeHost.lastErr == nil && r.NodeHost.lastRes.Value == 2 ==> err != nil && (err == ErrVersionMismatch ==> p == pairOf(r.NodeHost.lastRes.Data))
+//@   ensures [C13.client.set+C14+C15] err == nil ==> r.NodeHost.lastErr == nil && r.NodeHost.lastRes.Value != 2 && p == pairOf(r.NodeHost.lastRes.Data)
+//@   ensures [C13.client.set+C14+C15] err == ErrVersionMismatch ==> r.NodeHost.lastErr != nil || r.NodeHost.lastRes.Value == 2
 //@   modifies r.NodeHost.lastRes, r.NodeHost.lastErr, r.NodeHost.lastCmd
 //@   dead return 1
 
@@ -240,8 +240,8 @@ package kv
 //@   params r, key, ver
 //@   results err
 //@   requires r != nil && r.NodeHost != nil
-//@   ensures [C13.client.delete] updOf(r.NodeHost.lastCmd).Op == "delete" && updOf(r.NodeHost.lastCmd).KVPair.Key == key && updOf(r.NodeHost.lastCmd).KVPair.Ver == ver
-//@   ensures [C13.client.delete] r.NodeHost.lastErr == nil && r.NodeHost.lastRes.Value == 2 ==> err == ErrVersionMismatch
-//@   ensures [C13.client.delete] err == nil ==> r.NodeHost.lastErr == nil && r.NodeHost.lastRes.Value != 2
+//@   ensures [C13.client.delete+C14+C15] updOf(r.NodeHost.lastCmd).Op == "delete" && updOf(r.NodeHost.lastCmd).KVPair.Key == key && updOf(r.NodeHost.lastCmd).KVPair.Ver == ver
+//@   ensures [C13.client.delete+C14+C15] r.NodeHost.lastErr == nil && r.NodeHost.lastRes.Value == 2 ==> err == ErrVersionMismatch
+//@   ensures [C13.client.delete+C14+C15] err == nil ==> r.NodeHost.lastErr == nil && r.NodeHost.lastRes.Value != 2
 //@   modifies r.NodeHost.lastRes, r.NodeHost.lastErr, r.NodeHost.lastCmd
 //@   dead return 1
